@@ -94,6 +94,17 @@ def o_fit(name):
     return f
 
 
+def o_solver_batching(rng, n=6):
+    def gen():
+        for inp in O.gen_solver_reuse_inputs(rng, n):
+            inp["sequence"] = inp["sequence"][:1]
+            inp["reads"] = inp["reads"][:1]
+            inp["batch_sizes"] = [rng.choice([1, 2, 3, 4, 7, 13, 59, 61])]
+            inp["n_snap"] = rng.choice([60, 31, 17])
+            yield inp
+    return O.run_oracle("solver_reuse", gen())
+
+
 def o_cutoff(rng, n=3, max_N=(6, 4, 3)):
     def gen():
         for k in range(n):
@@ -113,9 +124,13 @@ def o_paths(rng, n=3, max_N=(6, 4, 3)):
     def gen():
         for k in range(n):
             order = (2, 3, 4)[k % 3]
-            yield {"crystal": crystal(rng, max_N=max_N[order - 2]), "orders": [order], "seed": rng.randrange(10 ** 6),
-                   "hook_sets": [{"eig_threshold": 5, "eig_target": rng.randint(3, 6)}, {"perm_nbatch": 2},
-                                 {"sumrule_nbatch": 64}]}
+            et = rng.randint(3, 6)
+            yield {"crystal": crystal(rng, max_N=max_N[order - 2], min_nlp=rng.choice([1, 2])), "orders": [order],
+                   "seed": rng.randrange(10 ** 6),
+                   "hook_sets": [{"eig_threshold": 5, "eig_target": et}, {"perm_nbatch": 2},
+                                 {"sumrule_nbatch": 64}, {"sumrule_nbatch": rng.choice([2, 3, 5, 7])},
+                                 # the verbose branches of the large eigen path (their output is discarded)
+                                 {"eig_threshold": 5, "eig_target": et, "_log_level": 1}]}
     return O.run_oracle("paths", gen())
 
 
@@ -390,8 +405,8 @@ PROPS = {
         "corr": [{"fn": C.corr_combinations, "quick": {"n_cases": 45}, "thorough": {"n_cases": 300}},
                  {"fn": C.corr_perm_stage, "quick": {"n_cases": 24}, "thorough": {"n_cases": 150}},
                  {"fn": corr_dist.corr_dist, "quick": {"n_cases": 40}, "thorough": {"n_cases": 400}}],
-        "oracle": [{"name": "cutoff", "fn": o_cutoff, "quick": {"n": 6}, "thorough": {"n": 30, "max_N": (8, 6, 3)},
-                    "search": {"n": 36, "max_N": (8, 6, 3)}}],
+        "oracle": [{"name": "cutoff", "fn": o_cutoff, "quick": {"n": 6}, "thorough": {"n": 30, "max_N": (8, 6, 4)},
+                    "search": {"n": 36, "max_N": (8, 6, 4)}}],
         "known": known_F1,
         "corpus": [{"name": "corpus_F1_order4_large_cutoff", "fn": corpus_F1_cutoff}],
         "trusted": [KERNELS["spglib"], KERNELS["float"],
@@ -442,7 +457,11 @@ PROPS = {
                  {"fn": S.corr_sum_rule, "quick": {"n_cases": 24, "sizes": ((6, 6), (6, 6), (3, 3))}, "thorough": {"n_cases": 120}},
                  {"fn": S.corr_normal_eq, "quick": {"n_cases": 9}, "thorough": {"n_cases": 90}}],
         "oracle": [{"name": "paths", "fn": o_paths, "quick": {"n": 6}, "thorough": {"n": 24}, "search": {"n": 18}},
-                   {"name": "fit_paths", "fn": o_fit("fit_relations"), "quick": {"n": 4}, "thorough": {"n": 18}}],
+                   {"name": "fit_paths", "fn": o_fit("fit_relations"), "quick": {"n": 4}, "thorough": {"n": 18}},
+                   # every solver class used directly with a snapshot batch size (also ones that do not divide the number
+                   # of snapshots) against the same class with the default: fresh objects, one solve each
+                   {"name": "solver_snapshot_batching", "fn": o_solver_batching, "quick": {"n": 6}, "thorough": {"n": 36},
+                    "search": {"n": 24}}],
         "trusted": [KERNELS["eigh"], KERNELS["float"], "thread count / BLAS reduction order and log_level are not modelled"],
     },
     "C12": {
